@@ -24,15 +24,29 @@ PROOFS = [
       mutants=[('lead_break_lost', r'else if \(strcasecmp\(in, "lead_break"\) == 0\)', 'else if (strcasecmp(in, "lead-break") == 0)', 'postcondition')]),
     P('reject', ['option_enum.cpp (generated): convert_string refuses unknown words'],
       mutants=[('assign_before_check', r'(?s)(convert_string\(const char \*in, iarf_e &out\).*?)\{\n      return\(false\);\n   \}\n\}', r'\1{\n      out = IARF_IGNORE;\n      return(false);\n   }\n}', 'postcondition')]),
+    Proof('print_custom_keyword_one', impl='contracts/C15/custkw.impl.cpp', spec='contracts/C15/custkw.spec.c', harness='h_print_custom_keyword_one', plain=True, no_contract=True, canaries=2, rules={},
+          nondet_static='.*(g_pair).*', expect=['postcondition: print_custom_keywords'], drop_flags=['--conversion-check'],
+          functions=['keywords.cpp:print_custom_keywords (fragment: one iteration of the loop over the dynamic keyword map)'],
+          assumed=['find_token_name(get_token_name(t)) == t (name table of token_enum.h)', 'the loader side: contract of process_option_line (C16-K5)'],
+          mutants=[('macro_else_written_as_close', r'"macro-else %\*\.s%s\\n"', '"macro-close %*.s%s\\\\n"', 'postcondition'),
+                   ('set_without_token_name', r'fprintf\(pfile, "set %s %\*\.s%s\\n",\n\s*tn,', 'fprintf(pfile, "set %s %*.s%s\\\\n",\n                 "x",', 'postcondition|pointer')]),
 ]
 EXPLANATION = ('Kernel of C15 (enumerated values): option_enum.cpp is regenerated on every run from /repo (scripts/make_option_enum.py + src/option_enum.cpp.in + src/option.h, as '
                'the build does) and its real to_string()/convert_string() are proved inverse for every value of bool, iarf_e, line_end_e and token_pos_e; unknown words are refused without touching the target.')
-K = ['K1 convert_string(to_string(v)) == v for every enumerated value', 'K1b unknown word => false, target unchanged']
+K = ['K3 print_custom_keywords (one iteration): every dynamic keyword is written as a line the loader maps back to the same (keyword, token) pair: `type K`, `macro-open|close|else K`, `set <token name> K` (reader side: contract of process_option_line, C16-K5)', 'K1 convert_string(to_string(v)) == v for every enumerated value', 'K1b unknown word => false, target unchanged']
 G = ['string values: the quoted-string writer of save_option_file composed with split_args (std::string heavy) is NOT covered; the property itself quotes that values containing \\ or " do not round-trip',
-     'numeric values (strtol / to_string of libc), custom types, set keywords, macro-* words, file_ext mappings, include directives: NOT covered',
+     'numeric values (strtol / to_string of libc), file_ext mappings (print_extensions), include directives: NOT covered',
      'save_option_file writes each option through these to_string functions and load_option_file reads through convert_string (process_option_line): not under contract',
      '"byte-identical formatting under the reloaded config" follows only if every option value is restored: NOT covered beyond enumerated values']
 
 sys.path.insert(0, os.path.join(os.path.dirname(os.path.abspath(__file__)), '..', '..', 'tools'))
 import replay_lib  # noqa: E402
-REPLAY = replay_lib.make_replay(replay_lib.scenario_enum_roundtrip)
+REPLAY = replay_lib.make_replay(replay_lib.scenario_custom_keywords_roundtrip, replay_lib.scenario_enum_roundtrip)
+
+
+def static_facts(repo):
+    """What the fragment extraction of print_custom_keywords drops is exactly the range-for header over the dynamic keyword map."""
+    import re
+    t = open(os.path.join(repo, 'src/keywords.cpp')).read()
+    mo = re.search(r'void print_custom_keywords\(FILE \*pfile\)\n\{\n   for \(const auto &keyword_pair : dkwm\)\n   \{\n      E_Token tt = keyword_pair\.second;', t)
+    return [('print_custom_keywords: the sliced loop body is the whole body of `for (const auto &keyword_pair : dkwm)`, the only statement of the function', bool(mo), '')]
